@@ -162,6 +162,9 @@ pub struct Report {
     pub violations: Vec<Violation>,
     /// Total number of violating cases observed (may exceed `violations.len()`, which is capped).
     pub violations_total: u64,
+    /// Second engine of a two-engine check: replay files get this tag and the evidence written
+    /// just before by the first engine is merged in (counts summed, its coverage kept as `part_a`).
+    pub merge_tag: Option<String>,
 }
 
 pub const MAX_KEPT_VIOLATIONS: usize = 200;
@@ -179,6 +182,7 @@ impl Report {
             assumptions: Vec::new(),
             violations: Vec::new(),
             violations_total: 0,
+            merge_tag: None,
         }
     }
 
@@ -233,7 +237,12 @@ impl Report {
             if n_reported >= 10 {
                 break;
             }
-            let path = replay_dir.join(format!("{}-{}.json", self.property, n_reported));
+            let path = replay_dir.join(format!(
+                "{}{}-{}.json",
+                self.property,
+                self.merge_tag.as_deref().unwrap_or(""),
+                n_reported
+            ));
             let doc = json!({
                 "engine": self.engine,
                 "property": self.property,
@@ -252,8 +261,33 @@ impl Report {
             );
             n_reported += 1;
         }
-        let unlisted_n = unlisted.len();
-        let wall = self.start.elapsed().as_secs_f64();
+        let mut unlisted_n = unlisted.len();
+        let mut wall = self.start.elapsed().as_secs_f64();
+        let ev_path0 = root.join("evidence").join(format!("{}.json", self.property));
+        if self.merge_tag.is_some() {
+            let old: Value = std::fs::read_to_string(&ev_path0)
+                .ok()
+                .and_then(|t| serde_json::from_str(&t).ok())
+                .unwrap_or_else(|| machinery_error("first engine's evidence is missing"));
+            for k in ["states", "transitions", "traces_validated_against_impl"] {
+                let a = old["coverage"][k].as_u64().unwrap_or(0);
+                let b = self.coverage.get(k).and_then(|v| v.as_u64()).unwrap_or(0);
+                self.coverage.insert(k.to_owned(), json!(a + b));
+            }
+            let mut samples = old["coverage"]["samples"].as_array().cloned().unwrap_or_default();
+            samples.extend(self.coverage.get("samples").and_then(|v| v.as_array()).cloned().unwrap_or_default());
+            self.coverage.insert("samples".to_owned(), json!(samples));
+            let ex = old["coverage"]["exhaustive"].as_bool().unwrap_or(false)
+                && self.coverage.get("exhaustive").and_then(|v| v.as_bool()).unwrap_or(false);
+            self.coverage.insert("exhaustive".to_owned(), json!(ex));
+            self.coverage.insert("part_a".to_owned(), old["coverage"].clone());
+            self.assumptions.extend(
+                old["assumptions"].as_array().cloned().unwrap_or_default().iter().filter_map(|a| a.as_str().map(str::to_owned)),
+            );
+            unlisted_n += old["violations"].as_u64().unwrap_or(0) as usize;
+            wall += old["wall_s"].as_f64().unwrap_or(0.0);
+        }
+        let unlisted_here = unlisted.len();
         self.coverage
             .entry("known_finding_keys".to_owned())
             .or_insert(json!(known_hits.keys().collect::<Vec<_>>()));
@@ -287,7 +321,7 @@ impl Report {
             known_hits.len(),
             ev_path.display()
         );
-        if unlisted_n > 0 {
+        if unlisted_here > 0 {
             1
         } else {
             0
